@@ -637,7 +637,16 @@ func (c *Ctx) callMayWriteHeap(env *Env, x *ast.CallExpr, fields map[string]bool
 		for _, m := range fi.Contract.Modifies {
 			base, f, _ := cutLast(m, ".")
 			if f == "*" {
-				return true
+				// "x.*" / "Type.*": every field of that struct type
+				fns := c.starFields(fi, base)
+				if fns == nil {
+					return true
+				}
+				for _, fn := range fns {
+					fields[fn] = true
+					c.lastIndirect[fn] = true
+				}
+				continue
 			}
 			fields[f] = true
 			// "recv.f" written by a method called on a stable path expression: remember the path
@@ -667,6 +676,29 @@ func (c *Ctx) callMayWriteHeap(env *Env, x *ast.CallExpr, fields map[string]bool
 		return all
 	}
 	return false
+}
+
+// starFields resolves the struct behind "base.*" of a callee's modifies clause to its field names.
+func (c *Ctx) starFields(fi *FuncInfo, base string) []string {
+	ce := &Env{c: c, fn: fi, pkg: c.pkgRefOf(fi), bound: map[string]Val{}}
+	var tt types.Type
+	rv, ps, _ := paramObjs(fi)
+	for _, v := range append([]*types.Var{rv}, ps...) {
+		if v != nil && v.Name() == base {
+			tt = v.Type()
+		}
+	}
+	if tt == nil {
+		tt = ce.frameType(base)
+	}
+	if tt == nil {
+		return nil
+	}
+	_, sty, _ := structOf(tt)
+	if sty == nil {
+		return nil
+	}
+	return append([]string{}, c.structFields(ce.structSortOf(tt), "*")...)
 }
 
 // havocLoopTargets forgets everything the loop may change.
@@ -845,6 +877,24 @@ func (c *Ctx) execFor(env *Env, x *ast.ForStmt, st *State, label string) []*Stat
 		out = append(out, exit)
 	}
 	out = append(out, lc.breaks...)
+	return c.loopExits(env, spec, n, pos, out, x.Pos())
+}
+
+// loopExits: "exit" clauses of a loop are proved in every state that leaves the loop
+// (normal exit and breaks) and assumed afterwards - an intermediate assertion that splits
+// a long argument into two obligations.
+func (c *Ctx) loopExits(env *Env, spec *LoopSpec, n int, pos token.Pos, out []*State, at token.Pos) []*State {
+	if spec == nil || len(spec.Exits) == 0 {
+		return out
+	}
+	ie := c.invEnv(env, pos, nil)
+	for ei, s := range out {
+		for k, ex := range spec.Exits {
+			g := ie.evalBool(ex.Expr, s)
+			c.addObl(s, fmt.Sprintf("loop%d/exit#%d@e%d", n, k, ei), "inv", g, c.e.pos(at), "exit "+ex.Text, nil)
+			s.assume(g)
+		}
+	}
 	return out
 }
 
@@ -987,7 +1037,7 @@ func (c *Ctx) execRange(env *Env, x *ast.RangeStmt, st *State, label string) []*
 	// after the loop the range variables keep their last values (unknown): leave havoced
 	out := []*State{exit}
 	out = append(out, lc.breaks...)
-	return out
+	return c.loopExits(env, spec, n, pos, out, x.Pos())
 }
 
 // execRangeMap: iteration order is arbitrary; the loop is abstracted by its invariant
